@@ -50,12 +50,30 @@ Flt(n, d) ==
       g == Gcd(AbsI(n), AbsI(d))
   IN  [k |-> "flt", n |-> (s * n) \div g, d |-> AbsI(d) \div g]
 
-IsNum(v) == v.k \in {"int", "flt"}
+\* Integers beyond TLC's 32-bit range (the 64-bit boundaries of Go's widths) are carried as a
+\* sign and a sequence of decimal digits: [k |-> "big", neg, digits].  They can be compared and
+\* printed; arithmetic on them is outside the modelled fragment.
+BigV(neg, digits) == [k |-> "big", neg |-> neg, digits |-> digits]
+IsBig(v) == v.k = "big"
+IsNum(v) == v.k \in {"int", "flt", "big"}
 NumN(v) == IF v.k = "int" THEN v.v ELSE v.n
-NumD(v) == IF v.k = "int" THEN 1 ELSE v.d
-NumEq(a, b) == NumN(a) * NumD(b) = NumN(b) * NumD(a)
-NumLess(a, b) == NumN(a) * NumD(b) < NumN(b) * NumD(a)
+NumD(v) == IF v.k = "flt" THEN v.d ELSE 1
 IsWhole(v) == NumD(v) = 1
+SignOf(v) == IF IsBig(v) THEN (IF v.neg THEN 0 - 1 ELSE 1) ELSE IF NumN(v) < 0 THEN 0 - 1 ELSE IF NumN(v) = 0 THEN 0 ELSE 1
+\* decimal digits of the magnitude of a whole number
+MagDigits(v) == IF IsBig(v) THEN v.digits ELSE NatDigits(AbsI(NumN(v)))
+DigitsCmp(x, y) == IF Len(x) # Len(y) THEN (IF Len(x) < Len(y) THEN 0 - 1 ELSE 1)
+                   ELSE IF x = y THEN 0 ELSE IF BytesLess(x, y) THEN 0 - 1 ELSE 1
+\* -1 / 0 / 1
+NumCmp(a, b) ==
+  IF ~IsBig(a) /\ ~IsBig(b) THEN
+    (LET l == NumN(a) * NumD(b) r == NumN(b) * NumD(a) IN IF l < r THEN 0 - 1 ELSE IF l = r THEN 0 ELSE 1)
+  ELSE IF SignOf(a) # SignOf(b) THEN (IF SignOf(a) < SignOf(b) THEN 0 - 1 ELSE 1)
+  ELSE \* same sign, at least one beyond 32 bits: a fraction is smaller in magnitude than any such integer
+       LET m == IF IsBig(a) /\ ~IsWhole(b) THEN 1 ELSE IF IsBig(b) /\ ~IsWhole(a) THEN 0 - 1 ELSE DigitsCmp(MagDigits(a), MagDigits(b))
+       IN  IF SignOf(a) < 0 THEN 0 - m ELSE m
+NumEq(a, b) == NumCmp(a, b) = 0
+NumLess(a, b) == NumCmp(a, b) < 0
 
 FloorDiv(n, d) == n \div d                      \* TLA+ \div floors for d > 0
 CeilDiv(n, d) == 0 - ((0 - n) \div d)
@@ -105,6 +123,7 @@ Same(a, b) ==
   /\ CASE a.k \in {"nil", "unspec"} -> TRUE
         [] a.k \in {"bool", "int", "str"} -> a.v = b.v
         [] a.k = "flt" -> a.n = b.n /\ a.d = b.d
+        [] a.k = "big" -> a.neg = b.neg /\ a.digits = b.digits
         [] a.k = "arr" -> Len(a.v) = Len(b.v) /\ \A i \in 1..Len(a.v) : Same(a.v[i], b.v[i])
         [] a.k = "map" -> Len(a.v) = Len(b.v)
                           /\ \A i \in 1..Len(a.v) : a.v[i][1] = b.v[i][1] /\ Same(a.v[i][2], b.v[i][2])
@@ -176,7 +195,8 @@ Index(v, i) ==
   IF IsUnspec(i) THEN Unspec
   ELSE CASE v.k = "arr" /\ NilFree(v) -> Unspec
     [] v.k = "arr" ->
-         (IF IsNum(i) THEN
+         (IF IsBig(i) THEN Nil
+          ELSE IF IsNum(i) THEN
             IF ~IsWhole(i) THEN Unspec
             ELSE LET n == NumN(i)
                      m == IF n < 0 THEN n + Len(v.v) ELSE n
@@ -197,6 +217,7 @@ ToText(v) ==
   CASE v.k = "nil" -> [ok |-> TRUE, s |-> <<>>]
     [] v.k = "bool" -> [ok |-> TRUE, s |-> IF v.v THEN <<116, 114, 117, 101>> ELSE <<102, 97, 108, 115, 101>>]
     [] v.k = "int" -> [ok |-> TRUE, s |-> IntText(v.v)]
+    [] v.k = "big" -> [ok |-> TRUE, s |-> (IF v.neg THEN <<45>> ELSE <<>>) \o v.digits]
     [] v.k = "flt" -> IF FltPrintable(v.n, v.d) THEN [ok |-> TRUE, s |-> FltText(v.n, v.d)]
                       ELSE [ok |-> FALSE, s |-> <<>>]
     [] v.k = "str" -> [ok |-> TRUE, s |-> v.v]
@@ -208,7 +229,7 @@ ToText(v) ==
 \* What fmt.Sprint gives for an element (join, string coercion): as ToText
 \* for scalars; nested collections are not decided.
 ScalarText(v) ==
-  IF v.k \in {"nil", "bool", "int", "flt", "str"} THEN ToText(v) ELSE [ok |-> FALSE, s |-> <<>>]
+  IF v.k \in {"nil", "bool", "int", "flt", "str", "big"} THEN ToText(v) ELSE [ok |-> FALSE, s |-> <<>>]
 
 \* ---------------------------------------------------------------- sorting
 \* Stable sort by a strict weak order Lt: element i goes to position
